@@ -35,10 +35,11 @@ theorem read_message_rejects_or_delivers (maxPiece : Nat) (f : Frame) :
 -- ------------------------------------------------------------------ handshake
 
 /-- **C14 (2)** Decoding a handshake allocates no more than the bitfield bytes it was given (+7), and
-an accepted bitfield has exactly the declared length, which the bytes cover. -/
+an accepted bitfield has exactly the declared length, which the bytes cover, and the set bits of the words
+that were received (which may lie beyond that length: the decoder does not clear them). -/
 theorem handshake_safe (i : HsIn) :
     (∀ a ∈ (handshake true i).allocs, a ≤ i.bf.bytes + 7 ∨ ∃ rb, i.rbf = some rb ∧ a ≤ rb.bytes + 7) ∧
-    (∀ n, (handshake true i).out = some n → n = i.bf.bits ∧ n ≤ 8 * i.bf.bytes) := by
+    (∀ n sb, (handshake true i).out = some (n, sb) → n = i.bf.bits ∧ sb = i.bf.setBits ∧ n ≤ 8 * i.bf.bytes) := by
   have h1 := unmarshal_cases i.bf
   simp only [handshake]
   split
@@ -48,14 +49,15 @@ theorem handshake_safe (i : HsIn) :
       dsimp only
       refine ⟨?_, by simp⟩
       intro a ha; exact Or.inl (h1.1 a ha)
-    | some len =>
-      have hl := h1.2 len hr
+    | some v =>
+      obtain ⟨len, sb0⟩ := v
+      have hl := h1.2 len sb0 hr
       dsimp only
       cases hrb : i.rbf with
       | none =>
         dsimp only
         refine ⟨fun a ha => Or.inl (h1.1 a ha), ?_⟩
-        intro n hn; simp at hn; subst hn; exact ⟨hl.1, hl.2.1⟩
+        intro n sb hn; simp at hn; obtain ⟨e1, e2⟩ := hn; subst e1; subst e2; exact ⟨hl.1, hl.2.1, hl.2.2.1⟩
       | some rb =>
         dsimp only
         have h2 := unmarshal_cases rb
@@ -70,7 +72,7 @@ theorem handshake_safe (i : HsIn) :
         | some _ =>
           dsimp only
           refine ⟨hall, ?_⟩
-          intro n hn; simp at hn; subst hn; exact ⟨hl.1, hl.2.1⟩
+          intro n sb hn; simp at hn; obtain ⟨e1, e2⟩ := hn; subst e1; subst e2; exact ⟨hl.1, hl.2.1, hl.2.2.1⟩
 
 /-- in particular a handshake that fits the 32 KiB message cap allocates less than 32 KiB + 8 per bitfield -/
 theorem handshake_alloc_bounded (i : HsIn) (hb : i.bf.bytes ≤ maxMessageSize)
@@ -88,19 +90,14 @@ connected peer -/
 inductive DOp where
   | addPeer (k : Nat) (len : Nat) (bits : List Nat)
   | msg (k : Nat) (m : Msg)
+  /-- the peer's connection ended (`removePeer`) -/
+  | close (k : Nat)
   deriving Repr, DecidableEq
-
-/-- a handshake bitfield is a bitset: its set bits lie below its length (the length itself is arbitrary) -/
-def DOp.WellFormed : DOp → Prop
-  | .addPeer _ len bits => ∀ b ∈ bits, b < len
-  | .msg _ _ => True
-
-instance (o : DOp) : Decidable o.WellFormed := by
-  cases o <;> simp only [DOp.WellFormed] <;> exact inferInstance
 
 def dstep (rep : Bool) (s : DState) : DOp → DRes
   | .addPeer k len bits => addPeer rep s k len bits
   | .msg k m => dispatch rep s k m
+  | .close k => removePeer s k
 
 /-- the results of a whole sequence of inputs, each applied to the state the previous one left -/
 def dtrace (rep : Bool) : DState → List DOp → List DRes
@@ -112,12 +109,13 @@ theorem effectOk_same (s s' : DState) (h : SameTorrent s s') (e : Effect) : Effe
   cases e <;> simp [EffectOk, validIdx, pieceLength, blobLength, h1, h2, h3]
 
 /-- **C14 (3)** For every well-formed dispatcher state over an agent or an origin torrent and every
-sequence of inputs from remote peers — handshake bitfields of any length, every message type with its
-sub-message absent or with arbitrary index / offset / length / payload — no step panics; the state stays
+sequence of inputs from remote peers — handshake bitfields of any length with ANY bits set (also at or
+beyond their own length, as the wire decoder produces them), every message type with its
+sub-message absent or with arbitrary index / offset / length / payload, connections ending at any point — no step panics; the state stays
 well formed (every peer bitfield no longer than the torrent, torrent pieces inside the torrent); and every
 effect on the torrent or its bookkeeping has a piece index inside `[0, numPieces)`, reads and writes cover
 exactly that piece and lie inside the blob. -/
-theorem dispatcher_safe (s0 : DState) (w : WFD s0) (ops : List DOp) (hw : ∀ o ∈ ops, o.WellFormed) :
+theorem dispatcher_safe (s0 : DState) (w : WFD s0) (ops : List DOp) :
     ∀ r ∈ dtrace true s0 ops,
       r.out.isPanic = false ∧ WFD r.st ∧ SameTorrent s0 r.st ∧ ∀ e ∈ r.effects, EffectOk s0 e := by
   induction ops generalizing s0 with
@@ -126,13 +124,14 @@ theorem dispatcher_safe (s0 : DState) (w : WFD s0) (ops : List DOp) (hw : ∀ o 
     intro r hr
     have hstep : StepOk s0 (dstep true s0 o) := by
       cases o with
-      | addPeer k len bits => exact addPeer_ok s0 k len bits w (hw (DOp.addPeer k len bits) (by simp))
+      | addPeer k len bits => exact addPeer_ok s0 k len bits w
       | msg k m => exact dispatch_ok s0 k m w
+      | close k => exact removePeer_ok s0 k w
     simp only [dtrace, List.mem_cons] at hr
     rcases hr with hr | hr
     · subst hr
       exact ⟨hstep.no_panic, hstep.wf, hstep.same, hstep.effects⟩
-    · have := ih (dstep true s0 o).st hstep.wf (fun o' ho' => hw o' (List.mem_cons_of_mem _ ho')) r hr
+    · have := ih (dstep true s0 o).st hstep.wf r hr
       obtain ⟨a, b, c, d⟩ := this
       obtain ⟨e1, e2, e3, e4⟩ := hstep.same
       obtain ⟨c1, c2, c3, c4⟩ := c
@@ -145,6 +144,71 @@ theorem dispatch_total (s : DState) (w : WFD s) (k : Nat) (m : Msg) :
     (dispatch true s k m).out.isPanic = false ∧ ∀ e ∈ (dispatch true s k m).effects, EffectOk s e :=
   ⟨(dispatch_ok s k m w).no_panic, (dispatch_ok s k m w).effects⟩
 
+/-- **C14 (4)** End to end, handshake to dispatcher: whatever bitfield the handshake decoder accepts — its
+length and its set bits exactly as the decoder produces them from the wire — handing it to `addPeer` of any
+well-formed dispatcher never panics, keeps the state well formed and counts only pieces of the torrent. No
+hypothesis relates the set bits to the declared length. -/
+theorem handshake_to_dispatcher_safe (i : HsIn) (len : Nat) (bits : List Nat)
+    (hh : (handshake true i).out = some (len, bits)) (s : DState) (w : WFD s) (k : Nat) :
+    (addPeer true s k len bits).out.isPanic = false ∧ WFD (addPeer true s k len bits).st ∧
+    ∀ e ∈ (addPeer true s k len bits).effects, EffectOk s e := by
+  have _ := hh
+  exact ⟨(addPeer_ok s k len bits w).no_panic, (addPeer_ok s k len bits w).wf, (addPeer_ok s k len bits w).effects⟩
+
+/-- a peer is only ever registered with a bitfield whose set bits lie below its length, which is at most the
+number of pieces: bits beyond the declared length are rejected, not trusted -/
+theorem addPeer_accepts_only_clean (s : DState) (k len : Nat) (bits : List Nat)
+    (hok : (addPeer true s k len bits).out = .ok .none) : len ≤ s.np ∧ ∀ b ∈ bits, b < len := by
+  unfold addPeer at hok
+  split at hok
+  · cases hok
+  · rename_i hl
+    simp only [Bool.true_and, Bool.or_eq_true, decide_eq_true_eq, List.any_eq_true, not_or, Nat.not_lt, not_exists,
+      not_and, Nat.not_le] at hl
+    exact hl
+
+-- ------------------------------------------------------------------ scheduler: incoming handshakes
+
+/-- the connection bookkeeping after a whole sequence of incoming connection attempts (each runs to its end:
+accepted and active, or rejected / failed / closed) -/
+def incomingAll (rep : Bool) (cfg : ConnState.Config) : ConnState.State → Nat → List InConn → ConnState.State
+  | s, _, [] => s
+  | s, cid, i :: is => incomingAll rep cfg (incoming rep cfg s cid i).1 (cid + 1) is
+
+/-- **C14 (5)** Scheduler level: whatever handshakes remote peers send — any peer id, any claimed info hash
+(the torrent's own, another live torrent's, nobody's), naming a torrent the agent has or not, decodable or
+not, with a bitfield the dispatcher accepts or not — once the attempts have run to their end no pending
+entry exists that was not there before: nothing a remote peer sends can leave a reservation behind, so the
+connection state cannot grow without bound and no torrent's connection capacity can be held by forged
+handshakes. -/
+theorem incoming_no_pending_leak (cfg : ConnState.Config) (s : ConnState.State) (cid : Nat) (is : List InConn)
+    (h p : Nat) (hp : ConnState.lookup (incomingAll true cfg s cid is) h p = some .pending) :
+    ConnState.lookup s h p = some .pending := by
+  induction is generalizing s cid with
+  | nil => exact hp
+  | cons i is ih => exact incoming_pending_sub cfg s cid i h p (ih _ _ hp)
+
+def incoming_no_pending_leak_target (rep : Bool) : Prop :=
+  ∀ cfg s cid is h p, ConnState.lookup (incomingAll rep cfg s cid is) h p = some .pending →
+    ConnState.lookup s h p = some .pending
+
+theorem incoming_no_pending_leak_repaired : incoming_no_pending_leak_target true :=
+  fun cfg s cid is h p hp => incoming_no_pending_leak cfg s cid is h p hp
+
+def cfg2 : ConnState.Config := { max := 2, maxMutual := 2, disableBlacklist := false, blacklistDuration := 30 }
+
+/-- the code as it was: a handshake naming torrent 0 and claiming info hash 1 leaves (peer 7, hash 1) pending -/
+theorem not_incoming_no_pending_leak_original : ¬ incoming_no_pending_leak_target false := by
+  intro h
+  have := h cfg2 {} 0 [{ peer := 7, claim := 1, real := some 0, decodable := true, bfOk := true }] 1 7 (by decide)
+  revert this; decide
+
+-- non-vacuity: an honest handshake becomes active, a forged one is failed and leaves nothing
+example : (incoming true cfg2 {} 0 { peer := 7, claim := 0, real := some 0, decodable := true, bfOk := true }).2 = .active := by decide
+example : ConnState.lookup (incoming true cfg2 {} 0 { peer := 7, claim := 0, real := some 0, decodable := true, bfOk := true }).1 0 7
+    = some (.active 0) := by decide
+example : (incoming true cfg2 {} 0 { peer := 7, claim := 1, real := some 0, decodable := true, bfOk := true }) = ({}, .failed) := by decide
+
 -- ------------------------------------------------------------------ the code as it was
 
 def read_message_target (rep : Bool) : Prop :=
@@ -156,16 +220,17 @@ def handshake_target (rep : Bool) : Prop :=
     ∀ a ∈ (handshake rep i).allocs, a ≤ maxMessageSize + 7
 
 def dispatch_total_target (rep : Bool) : Prop :=
-  ∀ s, WFD s → ∀ o : DOp, o.WellFormed → (dstep rep s o).out.isPanic = false
+  ∀ s, WFD s → ∀ o : DOp, (dstep rep s o).out.isPanic = false
 
 theorem read_message_repaired : read_message_target true :=
   fun mp f => ⟨(read_message_safe mp f).1, (read_message_safe mp f).2.1⟩
 theorem handshake_repaired : handshake_target true := fun i hb hr => handshake_alloc_bounded i hb hr
 theorem dispatch_total_repaired : dispatch_total_target true := by
-  intro s w o ho
+  intro s w o
   cases o with
-  | addPeer k len bits => exact (addPeer_ok s k len bits w ho).no_panic
+  | addPeer k len bits => exact (addPeer_ok s k len bits w).no_panic
   | msg k m => exact (dispatch_ok s k m w).no_panic
+  | close k => exact (removePeer_ok s k w).no_panic
 
 def agent3 : DState :=
   { origin := false, np := 3, pieceLen := 4, lastLen := 4, pieces := [0, 2],
@@ -209,7 +274,7 @@ theorem not_handshake_original : ¬ handshake_target false := by
 /-- each of these inputs panicked the dispatcher -/
 theorem not_dispatch_total_original : ¬ dispatch_total_target false := by
   intro h
-  have := h agent3 wf_agent3 (.msg 0 (.error none)) trivial
+  have := h agent3 wf_agent3 (.msg 0 (.error none))
   revert this; decide
 
 theorem original_panics :
@@ -220,7 +285,8 @@ theorem original_panics :
     (dstep false agent3 (.msg 0 (.request (some (-1, 0, 0))))).out.isPanic = true ∧
     (dstep false agent3 (.msg 0 (.payload (some (-1, 0, 0)) 0 true))).out.isPanic = true ∧
     (dstep false origin3 (.msg 0 (.request (some (-1, 0, 0))))).out.isPanic = true ∧
-    (dstep false agent3 (.addPeer 1 41 [0, 40])).out.isPanic = true := by decide
+    (dstep false agent3 (.addPeer 1 41 [0, 40])).out.isPanic = true ∧
+    (dstep false agent3 (.addPeer 1 3 [0, 40])).out.isPanic = true := by decide
 
 -- Non-vacuity on the repaired model: well-formed input is served, malformed input is rejected without effect.
 example : (dstep true agent3 (.msg 0 (.request (some (2, 0, 4))))).out = .ok (.payload 2 4) := by decide
@@ -230,6 +296,7 @@ example : (dstep true agent3 (.msg 0 (.payload (some (1, 0, 4)) 4 true))).st.pie
 example : (dstep true agent3 (.msg 0 (.payload (some (-1, 0, 0)) 0 true))).st.pieces = [0, 2] := by decide
 example : (dstep true agent3 (.msg 0 (.announce (some 2)))).effects = [.setBit 2, .count 2] := by decide
 example : (dstep true agent3 (.addPeer 1 41 [0, 40])).out = .err := by decide
+example : (dstep true agent3 (.addPeer 1 3 [0, 40])).out = .err := by decide   -- dirty last word: rejected
 example : (dstep true agent3 (.addPeer 1 3 [0, 2])).out = .ok .none := by decide
 example : (readMessage true 1024 { dlen := 7, avail := 1031, parse := some { typ := 2, pp := some (0, 0, 1024) } }).out
     = .msg 2 (some 1024) := by decide
@@ -238,7 +305,7 @@ example : (readMessage true 1024 { dlen := 7, avail := 1031, parse := some { typ
 private def hs3 (bits bytes : Nat) : HsIn :=
   { isBitfieldType := true, body := true, pidOk := true, ihOk := true, nameOk := true,
     bf := { short := false, bits := bits, bytes := bytes }, rbf := none }
-example : (handshake true (hs3 3 8)).out = some 3 := by decide
+example : (handshake true (hs3 3 8)).out = some (3, []) := by decide
 example : (handshake true (hs3 65 8)).out = none := by decide
 example : (handshake true (hs3 1073741824 8)).allocs = [] := by decide
 
